@@ -795,7 +795,7 @@ class DateTime(datetime.datetime, Date):
         if unit not in self._MODIFIERS_VALID_UNITS:
             raise ValueError(f'Invalid unit "{unit}" for start_of()')
 
-        return cast("Self", getattr(self, f"_start_of_{unit}")())
+        return self._unit_boundary(f"_start_of_{unit}", first=True)
 
     def end_of(self, unit: str) -> Self:
         """
@@ -815,7 +815,55 @@ class DateTime(datetime.datetime, Date):
         if unit not in self._MODIFIERS_VALID_UNITS:
             raise ValueError(f'Invalid unit "{unit}" for end_of()')
 
-        return cast("Self", getattr(self, f"_end_of_{unit}")())
+        return self._unit_boundary(f"_end_of_{unit}", first=False)
+
+    def _unit_boundary(self, modifier: str, first: bool) -> Self:
+        """
+        Apply a _start_of_* / _end_of_* modifier and, when the wall clock time
+        of the boundary is repeated or skipped in the timezone, resolve it
+        from the direction instead of from the fold of the instance:
+        the first (last) instant of a unit is the earlier (later) occurrence
+        of a repeated time and the time after (before) a skipped one.
+        """
+        if self.tz is None:
+            return cast("Self", getattr(self, modifier)())
+
+        first_pass = self.replace(fold=0)
+        second_pass = self.replace(fold=1)
+        early = cast("Self", getattr(first_pass, modifier)())
+        late = cast("Self", getattr(second_pass, modifier)())
+
+        def wall(dt: DateTime) -> tuple[int, ...]:
+            return (
+                dt.year,
+                dt.month,
+                dt.day,
+                dt.hour,
+                dt.minute,
+                dt.second,
+                dt.microsecond,
+            )
+
+        if wall(early) == wall(late):
+            # An existing time: the same instant, or a repeated one
+            if early.utcoffset() == late.utcoffset():
+                return late
+
+            own = late if self.fold else early
+            if (
+                modifier.endswith(("_second", "_minute", "_hour"))
+                and wall(first_pass) == wall(second_pass)
+                and first_pass.utcoffset() != second_pass.utcoffset()
+                and own.utcoffset() == self.utcoffset()
+            ):
+                # The instance is itself in the repeated period: a unit
+                # shorter than a day stays in the occurrence it belongs to
+                return own
+
+            return early if first else late
+
+        # A skipped time, moved backward (fold=0) or forward (fold=1)
+        return late if first else early
 
     def _start_of_second(self) -> Self:
         """
@@ -947,6 +995,11 @@ class DateTime(datetime.datetime, Date):
 
         if self.day_of_week != pendulum._WEEK_ENDS_AT:
             dt = self.next(pendulum._WEEK_ENDS_AT)
+
+            if dt.day_of_week != pendulum._WEEK_ENDS_AT:
+                # The last day of the week does not exist in the timezone
+                # (a whole day was skipped): the week ends right before it
+                return dt.start_of("day").subtract(microseconds=1)
 
         return dt.end_of("day")
 
